@@ -151,6 +151,11 @@ func (tr *Trans) staticCall(fn *ssa.Function, binds []Val, args []Val, in ssa.In
 		tr.g.calleesUsed[key] = "inlined"
 		return tr.inline(fn, binds, args, resT)
 	}
+	if ct == nil && fn.Blocks != nil && tr.g.depth < 4 && fn != tr.fn && inRepo(fn) && smallBody(fn, 80) {
+		// small helper of the repository without a contract: transparent (keeps proofs stable under helper extraction)
+		tr.g.calleesUsed[key] = "inlined"
+		return tr.inline(fn, binds, args, resT)
+	}
 	if ct != nil {
 		if ct.Trusted || ct.External {
 			tr.g.calleesUsed[key] = "assumed"
@@ -959,4 +964,30 @@ func (tr *Trans) runDefers() {
 		}
 		tr.st.set(d.key, tFalse)
 	}
+}
+
+func inRepo(fn *ssa.Function) bool {
+	if fn.Pkg != nil {
+		return strings.HasPrefix(fn.Pkg.Pkg.Path(), repoModule)
+	}
+	return false
+}
+
+func smallBody(fn *ssa.Function, max int) bool {
+	n := 0
+	for _, b := range fn.Blocks {
+		n += len(b.Instrs)
+		for _, in := range b.Instrs {
+			switch in.(type) {
+			case *ssa.Go, *ssa.Select, *ssa.Defer:
+				return false
+			}
+		}
+		for _, s := range b.Succs {
+			if s.Dominates(b) {
+				return false // loops need invariants
+			}
+		}
+	}
+	return n <= max
 }
